@@ -188,7 +188,7 @@ def stopOne (c : Cfg) (now : Tick) (r : Reason) (i : Inst) (ex : Ex) : Out :=
 /-! ### One processing cycle (`process_spawning_cause`) for this handler id -/
 
 structure CycIn where
-  matches : Bool     -- the handler's filters match the body
+  matching : Bool   -- the handler's filters match the body
   marked : Bool      -- finalizers.is_deletion_ongoing(body)
   paused : Bool      -- operator_paused.is_on() when pause_daemons runs
   deleted : Bool     -- raw event type is DELETED: `memories.forget` ran before the processing
@@ -218,7 +218,7 @@ def cycle (c : Cfg) (inp : CycIn) (s : St) : St × List Tick :=
   if inp.marked then
     stopIf c s true .deleted inp.ex1                       -- stop_daemons(all running)
   else
-    let selected := inp.matches && !s.forever              -- get_handlers(cause, excluded=forever_stopped)
+    let selected := inp.matching && !s.forever              -- get_handlers(cause, excluded=forever_stopped)
     let s1 := if selected && s.run.isNone then spawn s else s       -- spawn_daemons: `handler.id not in daemons`
     let (s2, dm) := stopIf c s1 (!selected) .mismatch inp.ex1      -- match_daemons
     let (s3, dp) := stopIf c s2 inp.paused .pausing inp.ex2        -- pause_daemons (strictly after spawning)
@@ -391,7 +391,7 @@ def settles (c : TCfg) (e : TEnv) (outcome : Bool × Tick) : Nat → TLoc → Bo
 
 /-- The states from which the unguarded idle-only loop is entered and never left. -/
 def spinning (c : TCfg) (e : TEnv) (l : TLoc) : Bool :=
-  !c.guarded && c.interval.isNone && c.idle.isSome && e.stop && decide (e.idleReset ≤ l.started) &&
-    (l.pc == .idleLoop || (l.pc == .post && l.done))
+  !c.guarded && c.idle.isSome && e.stop && decide (e.idleReset ≤ l.started) &&
+    (l.pc == .idleLoop || (l.pc == .post && l.done && c.interval.isNone))
 
 end Kopf.C09
